@@ -68,14 +68,15 @@ def gen_config(rng, idx, big=False):
     nexthops = rng.sample(NEXTHOP_OK, rng.choice([0, 1, 2, 4])) if cap['nexthop'] else []
     if big:
         addpaths, nexthops = ADDPATH_OK[:6], list(NEXTHOP_OK)
+    limits = {f: rng.choice([1, 10, 65535]) for f in addpaths if rng.random() < 0.4}
+    multisession = rng.random() < 0.2 and not big
     host = rng.choice(['', '', 'rtr1', 'a' * 63, 'b' * 64, 'c' * 70, 'edge-' + str(idx)])
     domain = rng.choice(['', 'example.net', 'd' * 64, 'e' * 80]) if host else ''
     if big:
         host, domain = 'my-host-name', 'my.domain.example'
     lines = ['neighbor 127.0.0.1 {', f'  router-id {rid >> 24}.{(rid >> 16) & 255}.{(rid >> 8) & 255}.{rid & 255};',
              '  local-address 127.0.0.2;', f'  local-as {local_as};']
-    # peer-as is mandatory in the text; "any AS" (validate() skips the test when it is 0) is set after parsing
-    lines.append(f'  peer-as {peer_as if peer_as is not None else 65001};')
+    lines.append(f'  peer-as {peer_as if peer_as is not None else "auto"};')  # auto: any AS is accepted
     lines.append(f'  hold-time {hold};')
     if host:
         lines.append(f'  host-name {host};')
@@ -90,11 +91,11 @@ def gen_config(rng, idx, big=False):
         c.append(f'    {k} {"enable" if cap[k] else "disable"};')
     c.append('    graceful-restart %s;' % ('disable' if cap['graceful-restart'] is None else cap['graceful-restart']))
     c.append(f'    add-path {cap["add-path"]};')
-    c.append('    multi-session disable;')
+    c.append('    multi-session %s;' % ('enable' if multisession else 'disable'))
     c.append('  }')
     lines += c
     if addpaths:
-        lines.append('  add-path { ' + ' '.join(FAMILY_NAMES[f] + ';' for f in addpaths) + ' }')
+        lines.append('  add-path { ' + ' '.join(FAMILY_NAMES[f] + (f' limit {limits[f]};' if f in limits else ';') for f in addpaths) + ' }')
     if nexthops:
         lines.append('  nexthop { ' + ' '.join(f'{AFI_NAME[a]} {SAFI_NAME[s]} {AFI_NAME[h]};' for a, s, h in nexthops) + ' }')
     lines.append('}')
@@ -107,12 +108,7 @@ def load_neighbor(conf):
     c = Configuration([conf['text']], text=True)
     if not c.reload():
         return None
-    n = next(iter(c.neighbors.values()))
-    if conf.get('any_peer_as'):
-        from exabgp.bgp.message.open.asn import ASN
-
-        n.session.peer_as = ASN(0)
-    return n
+    return next(iter(c.neighbors.values()))
 
 
 def rid_int(router_id):
@@ -147,7 +143,7 @@ def cfg_of_neighbor(n, restarted):
         'software': list(f'ExaBGP/{version}'.encode('utf-8')) if cap.software_version else [],
         'linklocal': cap.link_local_nexthop.is_enabled(),
         'multisession': cap.multi_session.is_enabled(),
-        'paths_limit': bool(cap.paths_limit_per_family),
+        'paths_limit': [((int(f[0]), int(f[1])), int(v)) for f, v in cap.paths_limit_per_family.items()],
     }
 
 
@@ -165,6 +161,10 @@ def our_adv(cfg):
         'extmsg': cfg['extmsg'],
         'refresh': cfg['refresh'],
         'enhanced': cfg['refresh'],
+        # a limit is advertised for the families we accept several paths for
+        'pl': [(f, v) for f, v in cfg['paths_limit'] if f in ADDPATH_OK and f in cfg['addpaths'] and v > 0]
+              if cfg['addpath'] in (1, 3) else [],
+        'ms': cfg['multisession'],
     }
 
 
@@ -198,6 +198,10 @@ def cap_bytes(c):
         return 70, b''
     if k == 'gr':
         return 64, be16((c[1] << 12) | c[2]) + b''.join(be16(f[0]) + bytes([f[1], fl]) for f, fl in c[3])
+    if k == 'pl':
+        return 76, b''.join(be16(f[0]) + bytes([f[1]]) + be16(v) for f, v in c[1])
+    if k == 'ms':
+        return 68, bytes(c[1])
     if k == 'raw':
         return c[1], bytes(c[2])
     raise ValueError(k)
@@ -243,8 +247,16 @@ def gen_peer(rng, cfg, stream):
     rid = cfg['rid'] if r < 0.25 else (0 if r < 0.30 else rng.choice([0x01020305, 0x0A0A0A0A, rng.randint(1, 0xFFFFFFFF)]))
     caps = []
     nmp = rng.choice([0, 1, 2, 3, 5, len(fam_pool)])
-    for f in rng.sample(fam_pool, min(nmp, len(fam_pool))):
+    if cfg['multisession'] and rng.random() < 0.6:
+        mp_list = list(cfg['families'])  # the same group, in our order
+        if rng.random() < 0.15 and len(mp_list) > 1:
+            mp_list.reverse()
+    else:
+        mp_list = rng.sample(fam_pool, min(nmp, len(fam_pool)))
+    for f in mp_list:
         caps.append(('mp', f, 0 if rng.random() < 0.9 else rng.getrandbits(8)))
+    if rng.random() < (0.7 if cfg['multisession'] else 0.1):
+        caps.append(('ms', rng.choice([[], [0], [0, 1], [1, 2, 3]])))
     if caps and rng.random() < 0.3:
         caps.append(rng.choice(caps))  # duplicated family
     as4_values = []
@@ -296,12 +308,15 @@ def gen_peer(rng, cfg, stream):
         v = bytes(rng.choice(b'FRR/8.1') for _ in range(rng.choice([0, 3, 30])))
         caps.append(('raw', 75, bytes([len(v)]) + v))
     for _ in range(rng.choice([0, 0, 1, 2])):
-        code = rng.choice([0, 3, 4, 7, 66, 67, 68, 71, 72, 74, 77, 128, 129, 131, 185, 200, 255, rng.randint(0, 255)])
-        if code in (1, 2, 5, 6, 64, 65, 69, 70, 73, 75, 76):
+        code = rng.choice([0, 3, 4, 7, 66, 67, 71, 72, 74, 77, 128, 129, 131, 185, 200, 255, rng.randint(0, 255)])
+        if code in (1, 2, 5, 6, 64, 65, 68, 69, 70, 73, 75, 76):
             code = 129
         caps.append(('raw', code, bytes(rng.getrandbits(8) for _ in range(rng.choice([0, 0, 1, 4, 9])))))
-    if rng.random() < 0.1:
-        caps.append(('raw', 76, b''.join(be16(f[0]) + bytes([f[1]]) + be16(rng.choice([0, 1, 10])) for f in rng.sample(fam_pool, 2))))
+    for _ in range(rng.choice([0, 0, 0, 1, 1, 2])):
+        ents = [(f, rng.choice([0, 1, 10, 65535])) for f in rng.sample(fam_pool, rng.choice([0, 1, 2, 4]))]
+        if ents and rng.random() < 0.3:
+            ents.append((ents[0][0], rng.choice([0, 7])))
+        caps.append(('pl', ents))
     order = rng.choice(['as-is', 'shuffled', 'shuffled'])
     if order == 'shuffled':
         # shuffling changes which duplicate comes last: recompute the views from the final order
@@ -336,6 +351,8 @@ def gen_peer(rng, cfg, stream):
         'extmsg': any(c[0] == 'ext' for c in caps),
         'refresh': any(c[0] == 'rr' for c in caps),
         'enhanced': any(c[0] == 'err' for c in caps),
+        'pl': [e for c in caps if c[0] == 'pl' for e in c[1]],
+        'ms': any(c[0] == 'ms' for c in caps),
     }
     kind = stream
     if stream == 'malformed':
@@ -441,6 +458,11 @@ def run_impl(neighbor, restarted, body, universe):
         'refresh': int(neg.refresh),
         'msg_size': int(neg.msg_size),
         'holdtime': int(neg.holdtime),
+        'paths_limit': [((int(k[0]), int(k[1])), int(v)) for k, v in neg.paths_limit.items()],
+        'adv_paths_limit': [((int(k[0]), int(k[1])), int(v)) for k, v in neg.advertised_paths_limit.items()],
+        'pl_q': [neg.paths_limit.get(f) for f in universe],
+        'apl_q': [neg.advertised_paths_limit.get(f) for f in universe],
+        'ms': [int(neg.multisession[0]), int(neg.multisession[1])] if isinstance(neg.multisession, tuple) else bool(neg.multisession),
     }
     return ours_bytes, ['N', None if err is None else [int(err[0]), int(err[1])], fields]
 
@@ -496,8 +518,16 @@ def ccfg(c):
         f'(Build_cfg {c["local_as"]} {c["peer_as"]} {c["rid"]} {c["hold"]} {cfams(c["families"])} {cb(c["asn4"])} '
         f'{cb(c["nexthop"])} {cnhs(c["nexthops"])} {c["addpath"]} {cfams(c["addpaths"])} {cb(c["gr"])} {c["gr_time"]} '
         f'{cb(c["restarted"])} {cb(c["refresh"])} {cb(c["operational"])} {cb(c["extmsg"])} {zlist(c["host"])} '
-        f'{zlist(c["domain"])} {zlist(c["software"])} {cb(c["linklocal"])})'
+        f'{zlist(c["domain"])} {zlist(c["software"])} {cb(c["linklocal"])} {cfz(c["paths_limit"])} {cb(c["multisession"])})'
     )
+
+
+def cfz(l):
+    return '[' + '; '.join(f'({cfam(f)}, {v})' for f, v in l) + ']'
+
+
+def coptz(l):
+    return '[' + '; '.join('None' if v is None else f'(Some {int(v)})' for v in l) + ']'
 
 
 def cneg(f):
@@ -505,7 +535,8 @@ def cneg(f):
     apr = '[' + '; '.join(f'({cfam(k)}, {cb(v)})' for k, v in f['ap_recv']) + ']'
     return (
         f'(Build_negotiated {cfams(f["families"])} {cb(f["asn4"])} {f["local_as"]} {f["peer_as"]} {aps} {apr} '
-        f'{cnhs(f["nexthop"])} {f["refresh"]} {f["msg_size"]} {f["holdtime"]})'
+        f'{cnhs(f["nexthop"])} {f["refresh"]} {f["msg_size"]} {f["holdtime"]} {cfz(f["paths_limit"])} {cfz(f["adv_paths_limit"])} '
+        + ('MsYes' if f['ms'] is True else 'MsNo' if f['ms'] is False else f'(MsRefuse {f["ms"][0]} {f["ms"][1]})') + ')'
     )
 
 
@@ -520,7 +551,7 @@ def cadv(a):
     ap = '[' + '; '.join(f'({cfam(f)}, {sr})' for f, sr in a['addpath']) + ']'
     return (
         f'(Build_adv {a["version"]} {a["as2"]} {a["hold"]} {a["id"]} {cfams(a["mp"])} {zlist(a["as4"])} {ap} '
-        f'{cnhs(a["nexthop"])} {cb(a["extmsg"])} {cb(a["refresh"])} {cb(a["enhanced"])})'
+        f'{cnhs(a["nexthop"])} {cb(a["extmsg"])} {cb(a["refresh"])} {cb(a["enhanced"])} {cfz(a["pl"])} {cb(a["ms"])})'
     )
 
 
@@ -531,12 +562,15 @@ Fixpoint zl_eqb (a b : list Z) : bool :=
   match a, b with [], [] => true | x :: a', y :: b' => (x =? y) && zl_eqb a' b' | _, _ => false end.
 Fixpoint l_eqb {A} (e : A -> A -> bool) (a b : list A) : bool :=
   match a, b with [], [] => true | x :: a', y :: b' => e x y && l_eqb e a' b' | _, _ => false end.
+Definition fz_eqb (a b : fam * Z) := fam_eqb (fst a) (fst b) && (snd a =? snd b).
 Definition fb_eqb (a b : fam * bool) := fam_eqb (fst a) (fst b) && Bool.eqb (snd a) (snd b).
 Definition neg_eqb (a b : negotiated) : bool :=
   l_eqb fam_eqb (n_families a) (n_families b) && Bool.eqb (n_asn4 a) (n_asn4 b) && (n_local_as a =? n_local_as b)
   && (n_peer_as a =? n_peer_as b) && l_eqb fb_eqb (n_ap_send a) (n_ap_send b) && l_eqb fb_eqb (n_ap_recv a) (n_ap_recv b)
   && l_eqb nh_eqb (n_nexthop a) (n_nexthop b) && (n_refresh a =? n_refresh b) && (n_msg_size a =? n_msg_size b)
-  && (n_holdtime a =? n_holdtime b).
+  && (n_holdtime a =? n_holdtime b) && l_eqb fz_eqb (n_paths_limit a) (n_paths_limit b)
+  && l_eqb fz_eqb (n_adv_paths_limit a) (n_adv_paths_limit b)
+  && match n_ms a, n_ms b with MsNo, MsNo | MsYes, MsYes => true | MsRefuse c1 s1, MsRefuse c2 s2 => (c1 =? c2) && (s1 =? s2) | _, _ => false end.
 Definition ref_eqb (a b : option (Z * Z)) : bool :=
   match a, b with None, None => true | Some (x, y), Some (u, v) => (x =? u) && (y =? v) | _, _ => false end.
 Definition out_eqb (a b : outcome) : bool :=
@@ -565,11 +599,14 @@ Fixpoint l_eqb {A} (e : A -> A -> bool) (a b : list A) : bool :=
 Definition rcode (k : refresh_kind) : Z := match k with RefreshAbsent => 1 | RefreshNormal => 2 | RefreshEnhanced => 4 end.
 (* the implementation's Negotiated fields, as observed: families asn4 local_as peer_as nexthop refresh msg_size hold,
    send/receive answers on a list of families *)
-Definition obs := (list family * bool * Z * Z * list nexthop * Z * Z * Z * list family * list bool * list bool)%type.
+Definition obs := (list family * bool * Z * Z * list nexthop * Z * Z * Z * list family * list bool * list bool
+                   * list (option Z) * list (option Z))%type.
+Definition oz_eqb (a b : option Z) : bool :=
+  match a, b with None, None => true | Some x, Some y => x =? y | _, _ => false end.
 (* which fields differ from the RFC function: 1 families 2 asn4 3 local_as 4 peer_as 5 nexthop 6 refresh 7 msg_size
-   8 hold 9 add-path send 10 add-path receive *)
+   8 hold 9 add-path send 10 add-path receive 11 paths-limit 12 advertised paths-limit *)
 Definition diff (ours theirs : adv) (o : obs) : list nat :=
-  match o with (fams, asn4, las, pas, nh, rf, ms, hd, univ, sq, rq) =>
+  match o with (fams, asn4, las, pas, nh, rf, ms, hd, univ, sq, rq, plq, aplq) =>
     let p := rfc_negotiate ours theirs in
     (if l_eqb same_family fams (p_families p) then [] else [1%nat])
     ++ (if Bool.eqb asn4 (p_asn4 p) then [] else [2%nat])
@@ -581,6 +618,8 @@ Definition diff (ours theirs : adv) (o : obs) : list nat :=
     ++ (if hd =? p_hold p then [] else [8%nat])
     ++ (if l_eqb Bool.eqb sq (map (p_send p) univ) then [] else [9%nat])
     ++ (if l_eqb Bool.eqb rq (map (p_recv p) univ) then [] else [10%nat])
+    ++ (if l_eqb oz_eqb plq (map (p_paths_limit p) univ) then [] else [11%nat])
+    ++ (if l_eqb oz_eqb aplq (map (p_adv_paths_limit p) univ) then [] else [12%nat])
   end.
 (* refusal verdict: 0 ok, 20 accepted although a fault is present, 21 refused without fault,
    22 refused with a subcode that names none of the faults present *)
@@ -609,7 +648,8 @@ def spec_case(cfg, peer, out, universe):
         obs = (
             f'(Some ({cfams(f["families"])}, {cb(f["asn4"])}, {f["local_as"]}, {f["peer_as"]}, {cnhs(f["nexthop"])}, '
             f'{f["refresh"]}, {f["msg_size"]}, {f["holdtime"]}, {cfams(universe)}, '
-            f'[{"; ".join(cb(x) for x in f["send_q"])}], [{"; ".join(cb(x) for x in f["recv_q"])}]))'
+            f'[{"; ".join(cb(x) for x in f["send_q"])}], [{"; ".join(cb(x) for x in f["recv_q"])}], '
+            f'{coptz(f["pl_q"])}, {coptz(f["apl_q"])}))'
         )
     else:
         ref = f'(Some ({out[1]}, {out[2]}))'
@@ -618,7 +658,7 @@ def spec_case(cfg, peer, out, universe):
 
 
 FIELD = {1: 'families', 2: 'asn4', 3: 'local_as', 4: 'peer_as', 5: 'nexthop', 6: 'refresh', 7: 'msg_size', 8: 'holdtime',
-         9: 'addpath-send', 10: 'addpath-receive', 20: 'accepted-with-fault', 21: 'refused-without-fault', 22: 'wrong-subcode'}
+         9: 'addpath-send', 10: 'addpath-receive', 11: 'paths-limit', 12: 'advertised-paths-limit', 20: 'accepted-with-fault', 21: 'refused-without-fault', 22: 'wrong-subcode'}
 
 
 def parse_pairs(s):
@@ -638,7 +678,7 @@ def parse_pairs(s):
 def universe_of(cfg, peer):
     fams = list(cfg['addpaths'])
     if peer['adv']:
-        fams += [f for f, _ in peer['adv']['addpath']]
+        fams += [f for f, _ in peer['adv']['addpath']] + [f for f, _ in peer['adv']['pl']]
     fams += [(1, 1), (2, 1), (1, 128), (3, 7)]
     return sorted(set(fams))
 
@@ -647,7 +687,7 @@ def describe(conf, cfg, peer, out):
     return {
         'configuration': conf['text'], 'restarted': conf['restarted'], 'any_peer_as': conf.get('any_peer_as', False),
         'peer_open_body_hex': bytes(peer['body']).hex(), 'peer_kind': peer['kind'], 'notes': peer['note'],
-        'implementation': out if out[0] != 'N' else {'refusal': out[1], **{k: v for k, v in out[2].items() if k not in ('send_q', 'recv_q')}},
+        'implementation': out if out[0] != 'N' else {'refusal': out[1], **{k: v for k, v in out[2].items() if k not in ('send_q', 'recv_q', 'pl_q', 'apl_q')}},
         'local_as_configured': cfg['local_as'], 'peer_as_configured': cfg['peer_as'],
     }
 
@@ -661,7 +701,7 @@ def minimal_peer(cfg, true_as, rid, hold=90, caps=None):
     as2 = true_as if true_as <= 65535 else AS_TRANS
     body = bytes([4]) + be16(as2) + be16(hold) + be32(rid) + bytes([len(params)]) + params
     adv = {'version': 4, 'as2': as2, 'hold': hold, 'id': rid, 'mp': [c[1] for c in caps if c[0] == 'mp'], 'as4': [true_as],
-           'addpath': [], 'nexthop': [], 'extmsg': False, 'refresh': False, 'enhanced': False}
+           'addpath': [], 'nexthop': [], 'extmsg': False, 'refresh': False, 'enhanced': False, 'pl': [], 'ms': False}
     return {'body': list(body), 'adv': adv, 'kind': 'valid', 'consistent': True, 'extended_params': False, 'ncaps': len(caps),
             'note': ['shrunk'], 'true_as': true_as}
 
@@ -677,7 +717,7 @@ def check(tier, seed):
         'modelled, not verified: Open/Capabilities/Negotiated python code (hand model Model_Open, constants regenerated)',
     ]
     run.assumptions = [
-        'configurations: multi-session disabled, no paths-limit, local-as given (not auto) and different from AS_TRANS (23456)',
+        'configurations: local-as given (not auto) and different from AS_TRANS (23456); peer-as may be auto',
         'peer OPEN AS-consistent in the RFC 6793 sense and Send/Receive in 0..3 for the property oracle; inconsistent '
         'pairs and other octet values only in the "odd" stream where only the correspondence is demanded',
         'host name / software version strings of the peer are ASCII (UTF-8 validity of capability strings is not modelled)',
@@ -719,7 +759,7 @@ def check(tier, seed):
             skipped += 1
             continue
         cfg = cfg_of_neighbor(n, conf['restarted'])
-        if cfg['multisession'] or cfg['paths_limit'] or cfg['local_as'] in (0, AS_TRANS):
+        if cfg['local_as'] in (0, AS_TRANS):
             skipped += 1
             continue
         loaded[ci] = (n, cfg)
